@@ -150,3 +150,90 @@ Qed.
 
 Lemma blake2b_length n msg : 0 <= n <= 64 -> zlen (blake2b n msg) = n.
 Proof. intros Hn. apply finish_length, Hn. Qed.
+
+(* ---------- the loop formulation = the RFC's indexed formulation ---------- *)
+Lemma pad128_full l : length l = 128%nat -> pad128 l = l.
+Proof. intros H. unfold pad128. rewrite H. rewrite Nat.sub_diag. apply app_nil_r. Qed.
+
+Lemma skipn_skipn' {A} : forall b a (l : list A), skipn a (skipn b l) = skipn (b + a) l.
+Proof.
+  induction b as [|b IH]; intros a l; [reflexivity|].
+  destruct l as [|x l]; [now rewrite !skipn_nil|]. cbn [skipn Nat.add]. apply IH.
+Qed.
+
+Lemma nblocks_spec ll :
+  (1 <= nblocks ll /\ 128 * (nblocks ll - 1) <= ll <= 128 * nblocks ll
+   /\ (ll <> 0 -> 128 * (nblocks ll - 1) < ll))%nat.
+Proof.
+  unfold nblocks. destruct (ll =? 0)%nat eqn:E.
+  - apply Nat.eqb_eq in E. rewrite E. lia.
+  - apply Nat.eqb_neq in E.
+    pose proof (Nat.div_mod (ll + 127) 128 ltac:(lia)) as Hd.
+    pose proof (Nat.mod_upper_bound (ll + 127) 128 ltac:(lia)) as Hm.
+    generalize dependent ((ll + 127) / 128)%nat. intros q Hd.
+    generalize dependent ((ll + 127) mod 128)%nat. intros r Hd Hm. lia.
+Qed.
+
+Definition out (n : Z) (h : list Z) : list Z := firstn (Z.to_nat n) (flat_map (word_le_bytes 8) h).
+
+Lemma finish_out n h t r : finish n (h, t, r) = out n (F h (pad128 r) (t + zlen r) true).
+Proof. reflexivity. Qed.
+
+(* last block *)
+Lemma rfc_last n msg dd h :
+  (1 <= dd)%nat -> (128 * (dd - 1) <= length msg <= 128 * dd)%nat ->
+  finish n (runL h (128 * Z.of_nat (dd - 1)) (skipn (128 * (dd - 1)) msg)) =
+  out n (F h (dblock msg (dd - 1)) (zlen msg) true).
+Proof.
+  intros H1 H2.
+  assert (Hrem : (length (skipn (128 * (dd - 1)) msg) <= 128)%nat) by (rewrite skipn_length; lia).
+  rewrite runL_short by (unfold zlen; lia).
+  rewrite finish_out. unfold dblock.
+  rewrite (firstn_all2 (n := 128)) by exact Hrem.
+  replace (128 * Z.of_nat (dd - 1) + zlen (skipn (128 * (dd - 1)) msg)) with (zlen msg)
+    by (unfold zlen; rewrite skipn_length; lia).
+  reflexivity.
+Qed.
+
+(* a full, non-final block *)
+Lemma rfc_step h k msg :
+  (128 * (k + 1) < length msg)%nat ->
+  runL h (128 * Z.of_nat k) (skipn (128 * k) msg) =
+  runL (F h (dblock msg k) ((Z.of_nat k + 1) * 128) false) (128 * Z.of_nat (S k)) (skipn (128 * S k) msg).
+Proof.
+  intros Hlen. rewrite runL_unfold.
+  assert (E2 : (128 <? zlen (skipn (128 * k) msg)) = true) by (unfold zlen; rewrite skipn_length; lia).
+  rewrite E2. rewrite skipn_skipn'.
+  replace (128 * k + 128)%nat with (128 * S k)%nat by lia.
+  replace (128 * Z.of_nat k + 128) with (128 * Z.of_nat (S k)) by lia.
+  replace ((Z.of_nat k + 1) * 128) with (128 * Z.of_nat (S k)) by lia.
+  unfold dblock. rewrite pad128_full by (rewrite firstn_length, skipn_length; lia).
+  reflexivity.
+Qed.
+
+Lemma rfc_loop_0 i h msg : rfc_loop 0 msg h i = h.
+Proof. reflexivity. Qed.
+Lemma rfc_loop_S c i h msg :
+  rfc_loop (S c) msg h i = rfc_loop c msg (F h (dblock msg i) ((Z.of_nat i + 1) * 128) false) (S i).
+Proof. reflexivity. Qed.
+
+Lemma rfc_gen n msg dd :
+  (1 <= dd)%nat -> (128 * (dd - 1) <= length msg <= 128 * dd)%nat ->
+  (length msg <> 0 -> 128 * (dd - 1) < length msg)%nat ->
+  forall c k h, (dd - 1 - k = c)%nat -> (k <= dd - 1)%nat ->
+  finish n (runL h (128 * Z.of_nat k) (skipn (128 * k) msg)) =
+  out n (F (rfc_loop c msg h k) (dblock msg (dd - 1)) (zlen msg) true).
+Proof.
+  intros H1 H2 H3. induction c as [|c IH]; intros k h Hc Hk.
+  - assert (k = dd - 1)%nat by lia. subst k. rewrite rfc_loop_0. apply rfc_last; assumption.
+  - assert (Hlen : (128 * (k + 1) < length msg)%nat).
+    { destruct (Nat.eq_dec (length msg) 0) as [E|E]; [lia|]. specialize (H3 E). lia. }
+    rewrite rfc_step by exact Hlen. rewrite rfc_loop_S. apply IH; lia.
+Qed.
+
+Lemma blake2b_rfc_eq_proof n msg : blake2b_rfc n msg = blake2b n msg.
+Proof.
+  destruct (nblocks_spec (length msg)) as (H1 & H2 & H3).
+  unfold blake2b_rfc, blake2b. symmetry.
+  exact (rfc_gen n msg (nblocks (length msg)) H1 H2 H3 (nblocks (length msg) - 1) 0 (h0 n) ltac:(lia) ltac:(lia)).
+Qed.
